@@ -127,6 +127,9 @@ func (s *SimFS) version(i int) int {
 	return v
 }
 
+// DropEdits forgets the scheduled edit events (harness use, after the tasks ended: versions are then set explicitly).
+func (s *SimFS) DropEdits() { s.edits = nil }
+
 // CurrentVersion is the harness view of a file's version.
 func (s *SimFS) CurrentVersion(name string) int {
 	if i, ok := s.index[name]; ok {
